@@ -36,6 +36,7 @@ class C10(Check):
             "definition-count bucket, directories, op kinds, spelling styles used, fault kind); non-trivial = at least two "
             "executions of one logical read differed in key/spelling/hash seed and the workspace has >= 3 definitions in "
             ">= 2 directories")
+    RULE = RULE + "; " + 'rounds 7-8: unrelated directories sorting between / around two namesakes; a read that fails after pulling in dependencies before the checked reads'
     TIERS = {"quick": {"runs": 400, "budget_s": 50}, "thorough": {"runs": 40000, "budget_s": 1200}}
     ASSUMPTIONS = ["reference model of namespaces (dsim/model/namespace.py, types.py) encodes the text of C10/C02 only",
                    "cross-hash-seed comparison is done on canonical observation digests by the parent"]
